@@ -1,6 +1,7 @@
 /-
   OdfModel.Styles — model of the automatic-style selection of odf/opendocument.py (property C10),
-  as of commit 8f9573d (complete reference-attribute list, closure over kept automatic styles).
+  as of commits 8f9573d (complete reference-attribute list, closure over kept automatic styles) and
+  ff5b530 (content.xml is seeded from the common styles and the body only).
 
   Python                                              model
   --------------------------------------------------  ------------------------------------------
@@ -36,7 +37,7 @@
             names = self._stylerefs_of(e, names)
             grown = True
       return [e for e in autostyles if id(e) in scanned]  filter on the flag, in `automatic-styles` order
-  `contentxml()`: _used_auto_styles([styles, automaticstyles, body])     `contentKept`
+  `contentxml()`: _used_auto_styles([styles, body])   (ff5b530)         `contentKept`
   `stylesxml()`:  _used_auto_styles([masterstyles])                      `stylesKept`
 
   The specification side (`Reach`) is the least fixpoint "referenced from a root, or from an automatic
@@ -162,7 +163,7 @@ deriving Repr, Inhabited
 
 /-- automatic styles written to content.xml -/
 def contentKept (C : Cfg) (d : StyleDoc) : List Node :=
-  usedAuto C [d.styles, d.auto, d.body] d.auto
+  usedAuto C [d.styles, d.body] d.auto
 
 /-- automatic styles written to styles.xml -/
 def stylesKept (C : Cfg) (d : StyleDoc) : List Node :=
